@@ -391,6 +391,11 @@ def r5_index_window(cx):
         arms = list(dict.fromkeys(t["targets"] + [t["otherwise"]]))
         reach = [a for a in arms if bs[0][0] in gb.reachable(a, avoid={sw})]
         ok = t["k"] == "switch" and len(reach) == 1
+    if len(iv) == 1 and not bs:
+        # `idx.is_valid(count).then(|| cut)`: bool::then runs the closure only on true
+        th = gb.calls(r"bool>::then::<|bool::then::<")
+        cl = [c for c in F.closures_of(g) if "blocks" in c and F.body(c).calls(r"Reader::get_byte_slice$")]
+        ok = len(th) == 1 and len(cl) == 1 and ("call", iv[0][0]) in gb.origins(th[0][1]["args"][0]) and ("field", "entry_count") in gb.origins(iv[0][1]["args"][1])
     cx.ob("R5", "R5/PlainStore.get_entry_reader", ok, g, "the entry bytes are cut only when idx.is_valid(layout.entry_count)")
 
 
